@@ -107,7 +107,7 @@ Token* ParserForXMLSchema::processParen() {
 Token* ParserForXMLSchema::processBackReference() {
 
     // XML Schema doesn't support back references
-    ThrowXMLwithMemMgr(RuntimeException, XMLExcepts::Regex_NotSupported, getMemoryManager());
+    ThrowXMLwithMemMgr(ParseException, XMLExcepts::Regex_NotSupported, getMemoryManager());
     return 0; // for compilers that complain about no return value
 }
 
